@@ -46,7 +46,7 @@ PodsSeq ==
   IN Cat({n \in NodeIds : run[n] > 0}) \o [i \in 1..pend |-> [cpu |-> 1, mem |-> 1, node |-> "", pending |-> TRUE, sched |-> FALSE]]
 
 GroupRec == [cfg |-> CfgC, order |-> SetToSortedSeq(Present), lag |-> FALSE, api |-> api, view |-> api, pods |-> PodsSeq,
-             asg |-> asg, pc |-> pc, ctl |-> ctl, accepted |-> accepted, tries |-> 0]
+             asg |-> asg, pc |-> pc, ctl |-> ctl, accepted |-> accepted, tries |-> 0, seenCpu |-> ctl.capCpu, seenMem |-> ctl.capMem]
 World == [now |-> now, dryAll |-> DryAll, alive |-> alive, gorder |-> <<G>>, groups |-> [g \in {G} |-> GroupRec]]
 
 Ctl0 == [lockAt |-> Never, isLocked |-> FALSE, requested |-> 0, delta |-> 0, lastOut |-> Never, capCpu |-> 0, capMem |-> 0, tracker |-> <<>>,
@@ -100,7 +100,8 @@ Tick == On("Tick") /\ now' = now + 1 /\ UNCHANGED <<api, run, pend, asg, pc, ctl
 
 PodArrive == On("PodArrive") /\ pend < MaxPend /\ pend' = pend + 1 /\ UNCHANGED <<now, api, run, asg, pc, ctl, accepted, alive>>
 
-Schedulable(n) == n \in Present /\ ~api[n].cordoned /\ ~api[n].force /\ ~api[n].taint.has /\ run[n] < Min2(KC, KM)
+\* (the escalator taint may be PreferNoSchedule, so a pod can still land on a tainted node)
+Schedulable(n) == n \in Present /\ ~api[n].cordoned /\ ~api[n].force /\ (~api[n].taint.has \/ "PodOnTainted" \in EnvOn) /\ run[n] < Min2(KC, KM)
 PodSchedule == On("PodSchedule") /\ pend > 0 /\ \E n \in NodeIds : Schedulable(n) /\ run' = [run EXCEPT ![n] = @ + 1] /\ pend' = pend - 1
                  /\ UNCHANGED <<now, api, asg, pc, ctl, accepted, alive>>
 
